@@ -7,7 +7,7 @@ Open Scope Z_scope.
 
 Definition livef {A} (x : option A) : bool := match x with Some _ => true | None => false end.
 
-Fixpoint nlive (l : list (option Z)) : nat :=
+Fixpoint nlive {A} (l : list (option A)) : nat :=
   match l with [] => 0 | Some _ :: l' => S (nlive l') | None :: l' => nlive l' end.
 
 Definition bit (b : bool) : nat := if b then 1%nat else 0%nat.
@@ -79,14 +79,14 @@ Proof.
   intros E H q Hq. symmetry in E. destruct (live_some _ _ _ _ _ _ E Hq) as [r Hr]. eapply H; eauto.
 Qed.
 
-Lemma nlive_upd_some l s k x : nth_error l s = Some (Some k) -> nlive (upd l s (Some x)) = nlive l.
+Lemma nlive_upd_some {A} (l : list (option A)) s k x : nth_error l s = Some (Some k) -> nlive (upd l s (Some x)) = nlive l.
 Proof.
   revert s; induction l as [|y l IH]; intros [|s] H; cbn in *; try discriminate.
   - injection H as ->. reflexivity.
   - destruct y; now rewrite IH.
 Qed.
 
-Lemma nlive_upd_none l s k : nth_error l s = Some (Some k) -> S (nlive (upd l s None)) = nlive l.
+Lemma nlive_upd_none {A} (l : list (option A)) s k : nth_error l s = Some (Some k) -> S (nlive (upd l s None)) = nlive l.
 Proof.
   revert s; induction l as [|y l IH]; intros [|s] H; cbn in *; try discriminate.
   - injection H as ->. reflexivity.
@@ -115,7 +115,7 @@ Proof.
   pose proof (nbehind_pos _ _ _ _ H L). lia.
 Qed.
 
-Lemma nlive_pos l s k : nth_error l s = Some (Some k) -> (1 <= nlive l)%nat.
+Lemma nlive_pos {A} (l : list (option A)) s k : nth_error l s = Some (Some k) -> (1 <= nlive l)%nat.
 Proof.
   revert s; induction l as [|y l IH]; intros [|s] H; cbn in *; try discriminate.
   - injection H as ->. lia.
@@ -141,7 +141,7 @@ Proof.
   intros B X t k H. apply nth_error_upd_inv in H as [[_ E]|H]; eauto.
 Qed.
 
-Lemma nlive_app l k : nlive (l ++ [Some k]) = S (nlive l).
+Lemma nlive_app {A} (l : list (option A)) k : nlive (l ++ [Some k]) = S (nlive l).
 Proof. induction l as [|y l IH]; cbn; auto. destruct y; now rewrite IH. Qed.
 
 Lemma nbehind_app n l k : nbehind n (l ++ [Some k]) = (nbehind n l + bit (Z.ltb k n))%nat.
@@ -162,28 +162,29 @@ Proof. now rewrite map_app. Qed.
 
 Section Sim.
 Variables I J : impl.
-(* relation between the channel sides, indexed by "the State still exists" *)
-Variable R : bool -> chan I -> list (option (rx I)) -> chan J -> list (option (rx J)) -> Prop.
+(* relation between the channel sides, indexed by the number of live State handles *)
+Variable R : nat -> chan I -> list (option (rx I)) -> chan J -> list (option (rx J)) -> Prop.
 (* relation between the one-shot sides, indexed by "the notifier still exists" *)
 Variable Ro : bool -> once I -> once J -> Prop.
 
-Hypothesis Hshape : forall b c l d m, R b c l d m -> map livef l = map livef m.
-Hypothesis Hinit : R true (ch_new I) [] (ch_new J) [].
-Hypothesis Hset : forall c l d m v, R true c l d m ->
-  R true (fst (ch_set I c v)) l (fst (ch_set J d v)) m /\ snd (ch_set I c v) = snd (ch_set J d v).
-Hypothesis Hsub : forall c l d m, R true c l d m ->
-  R true (fst (ch_sub I c)) (l ++ [Some (snd (ch_sub I c))])
-         (fst (ch_sub J d)) (m ++ [Some (snd (ch_sub J d))]).
-Hypothesis Hpoll : forall b c l d m s r q, R b c l d m ->
+Hypothesis Hshape : forall h c l d m, R h c l d m -> map livef l = map livef m.
+Hypothesis Hinit : R 1 (ch_new I) [] (ch_new J) [].
+Hypothesis Hset : forall h c l d m v, R (S h) c l d m ->
+  R (S h) (fst (ch_set I c v)) l (fst (ch_set J d v)) m /\ snd (ch_set I c v) = snd (ch_set J d v).
+Hypothesis Hsub : forall h c l d m, R (S h) c l d m ->
+  R (S h) (fst (ch_sub I c)) (l ++ [Some (snd (ch_sub I c))])
+          (fst (ch_sub J d)) (m ++ [Some (snd (ch_sub J d))]).
+Hypothesis Hpoll : forall h c l d m s r q, R h c l d m ->
   nth_error l s = Some (Some r) -> nth_error m s = Some (Some q) ->
-  R b (fst (fst (ch_poll I c r))) (upd l s (Some (snd (fst (ch_poll I c r)))))
+  R h (fst (fst (ch_poll I c r))) (upd l s (Some (snd (fst (ch_poll I c r)))))
       (fst (fst (ch_poll J d q))) (upd m s (Some (snd (fst (ch_poll J d q))))) /\
   snd (ch_poll I c r) = snd (ch_poll J d q).
-Hypothesis Hdrop : forall b c l d m s r q, R b c l d m ->
+Hypothesis Hdrop : forall h c l d m s r q, R h c l d m ->
   nth_error l s = Some (Some r) -> nth_error m s = Some (Some q) ->
-  R b (fst (ch_droprx I c r)) (upd l s None) (fst (ch_droprx J d q)) (upd m s None) /\
+  R h (fst (ch_droprx I c r)) (upd l s None) (fst (ch_droprx J d q)) (upd m s None) /\
   snd (ch_droprx I c r) = snd (ch_droprx J d q).
-Hypothesis Hclose : forall c l d m, R true c l d m -> R false (ch_close I c) l (ch_close J d) m.
+Hypothesis Hclone : forall h c l d m, R (S h) c l d m -> R (S (S h)) (ch_clone I c) l (ch_clone J d) m.
+Hypothesis Hdroptx : forall h c l d m, R (S h) c l d m -> R h (ch_droptx I c) l (ch_droptx J d) m.
 Hypothesis Honew : Ro true (on_new I) (on_new J).
 Hypothesis Hnotify : forall a b v, Ro true a b ->
   Ro false (fst (on_notify I a v)) (fst (on_notify J b v)) /\
@@ -193,8 +194,8 @@ Hypothesis Hopoll : forall nf a b, Ro nf a b ->
   Ro nf (fst (on_poll I a)) (fst (on_poll J b)) /\ snd (on_poll I a) = snd (on_poll J b).
 
 Definition sim (st : state I) (st' : state J) : Prop :=
-  value st = value st' /\ alive st = alive st' /\ notifier st = notifier st' /\
-  R (alive st) (ch st) (subs st) (ch st') (subs st') /\ Ro (notifier st) (onc st) (onc st').
+  handles st = handles st' /\ notifier st = notifier st' /\
+  R (nlive (handles st)) (ch st) (subs st) (ch st') (subs st') /\ Ro (notifier st) (onc st) (onc st').
 
 Lemma sim_init : sim (init I) (init J).
 Proof. unfold sim, init; cbn. auto. Qed.
@@ -202,19 +203,22 @@ Proof. unfold sim, init; cbn. auto. Qed.
 Lemma sim_step st st' o : sim st st' ->
   snd (step I st o) = snd (step J st' o) /\ sim (fst (step I st o)) (fst (step J st' o)).
 Proof.
-  intros (Hv & Ha & Hn & HR & HO).
-  destruct st as [v a c l nf oc], st' as [v' a' d m nf' od]; cbn [value alive notifier ch subs onc] in *.
-  subst v' a' nf'. unfold sim.
-  destruct o as [x| |s|s| |x| |]; cbn [step value alive notifier ch subs onc].
-  - (* Set_ *) destruct a; [|cbn; auto 10].
-    destruct (Hset c l d m x HR) as [HR' E].
+  intros (Hh & Hn & HR & HO).
+  destruct st as [hs c l nf oc], st' as [hs' d m nf' od]; cbn [handles notifier ch subs onc] in *.
+  subst hs' nf'. unfold sim.
+  destruct o as [h x|h|h|s|s|h|h|x| |]; cbn [step handles notifier ch subs onc].
+  - (* Set_ *) destruct (nth_error hs h) as [[g|]|] eqn:Eh; try (cbn; auto 10).
+    pose proof (nlive_pos _ _ _ Eh) as Lp. destruct (nlive hs) as [|k] eqn:En; [lia|].
+    destruct (Hset _ c l d m x HR) as [HR' E].
     destruct (ch_set I c x) as [c1 r1], (ch_set J d x) as [d1 r2]; cbn [fst snd] in *. subst r2.
-    cbn. auto 10.
-  - (* Subscribe *) destruct a; [|cbn; auto 10].
-    pose proof (Hsub c l d m HR) as HR'. pose proof (Hshape _ _ _ _ _ HR) as Sh.
+    cbn. rewrite (nlive_upd_some _ _ _ _ Eh), En. auto 10.
+  - (* Get *) destruct (nth_error hs h) as [[g|]|]; cbn; auto 10.
+  - (* Subscribe *) destruct (nth_error hs h) as [[g|]|] eqn:Eh; try (cbn; auto 10).
+    pose proof (nlive_pos _ _ _ Eh) as Lp. destruct (nlive hs) as [|k] eqn:En; [lia|].
+    pose proof (Hsub _ c l d m HR) as HR'. pose proof (Hshape _ _ _ _ _ HR) as Sh.
     destruct (ch_sub I c) as [c1 r1], (ch_sub J d) as [d1 r2]; cbn [fst snd] in *.
     assert (length l = length m) by (rewrite <- (map_length livef l), Sh; apply map_length).
-    cbn. rewrite H. auto 10.
+    cbn. rewrite H, En. auto 10.
   - (* Poll *) pose proof (Hshape _ _ _ _ _ HR) as Sh.
     destruct (nth_error l s) as [[r|]|] eqn:El.
     + destruct (live_some _ _ _ _ _ _ Sh El) as [q Eq]. rewrite Eq.
@@ -243,7 +247,12 @@ Proof.
       * exfalso. symmetry in Sh. destruct (live_some _ _ _ _ _ _ Sh Em) as [r Er]. congruence.
       * cbn. auto 10.
       * cbn. auto 10.
-  - (* DropState *) destruct a; cbn; auto 10.
+  - (* CloneH *) destruct (nth_error hs h) as [[g|]|] eqn:Eh; try (cbn; auto 10).
+    pose proof (nlive_pos _ _ _ Eh) as Lp. destruct (nlive hs) as [|k] eqn:En; [lia|].
+    cbn. rewrite nlive_app, En. auto 10.
+  - (* DropH *) destruct (nth_error hs h) as [[g|]|] eqn:Eh; try (cbn; auto 10).
+    pose proof (nlive_upd_none _ _ _ Eh) as Ln. destruct (nlive hs) as [|k] eqn:En; [lia|].
+    injection Ln as Ln. cbn. rewrite Ln. auto 10.
   - (* Notify *) destruct nf; [|cbn; auto 10].
     destruct (Hnotify _ _ x HO) as [HO' E].
     destruct (on_notify I oc x) as [n1 o1], (on_notify J od x) as [n2 o2]; cbn [fst snd] in *.
